@@ -245,6 +245,8 @@ func (h *heldSnap) find(key uint32) (string, error) {
 	if err != nil {
 		return "", err
 	}
+	// a reader can lose the processor while it holds the table readers of its snapshot
+	vsched.Point("R2 holding readers", nil)
 	var vals []string
 	for _, r := range rs {
 		v, err := r.Get(key)
@@ -380,7 +382,9 @@ func tC() { w.fam.Compact() }               // level-0 compaction (background go
 func tG() { kv.VerifStoreCompact(w.store) } // periodic job: needCompact/compact + reader cache cleanup
 func tD() { kv.VerifFamilyDeleteObsoleteFiles(w.fam) }
 
-var threadFns = map[string]func(){"R1": tR1, "R2": tR2, "W": tW, "C": tC, "G": tG, "D": tD}
+func tR1G() { tR1(); tG() } // a reader that runs the periodic job (reader-cache cleanup) right after it closed its snapshot
+
+var threadFns = map[string]func(){"R1": tR1, "R2": tR2, "W": tW, "C": tC, "G": tG, "D": tD, "R1+G": tR1G}
 
 func body(threads []string) func() {
 	return func() {
@@ -514,8 +518,9 @@ func main() {
 		return
 	}
 
-	// quick: the six scenarios that mix a snapshot reader with the version-changing jobs; thorough: all
-	scenarios := [][]string{{"R1", "W", "C"}, {"R2", "W", "C"}, {"R1", "R2", "C"}, {"R1", "C", "G"}, {"R1", "W", "G"}, {"R1", "C", "D"}}
+	// quick: the scenarios that mix a snapshot reader with the version-changing jobs, and two readers opening the
+	// same (not yet cached) tables while the reader cache is cleaned; thorough: all
+	scenarios := [][]string{{"R1", "W", "C"}, {"R2", "W", "C"}, {"R1", "R2", "C"}, {"R1", "C", "G"}, {"R1", "W", "G"}, {"R1", "C", "D"}, {"R1", "R1+G"}, {"R2", "R1+G"}, {"R1", "R2", "G"}}
 	if f.Thorough() {
 		scenarios = nil
 		all := []string{"R1", "R2", "W", "C", "G"}
@@ -526,13 +531,16 @@ func main() {
 				}
 			}
 		}
-		scenarios = append(scenarios, []string{"R1", "R1", "C"}, []string{"R1", "R2", "W", "C"}, []string{"R1", "C", "D"}, []string{"R2", "W", "D"})
+		scenarios = append(scenarios, []string{"R1", "R1+G"}, []string{"R2", "R1+G"}, []string{"R1", "R1", "G"}, []string{"R1", "R1", "C"}, []string{"R1", "R2", "W", "C"}, []string{"R1", "C", "D"}, []string{"R2", "W", "D"})
 	}
 	bound := 2
 	if f.Thorough() {
 		bound = 3
 	}
-	rep.Rule = fmt.Sprintf("scenarios (quick: 6 of them; thorough: all) = 3-thread subsets of {R1:snapshot+Load x2, R2:snapshot+FindReaders/Get+iterate, W:flush commit of the same key, C:Family.Compact (background job incl. obsolete-file deletion), G:store periodic job (compaction trigger + reader-cache cleanup), D:obsolete-file deletion} plus {R1,R1,C},{R1,R2,W,C},{R1,C,D},{R2,W,D} on a family pre-loaded with two level-0 files sharing a key; every schedule with <=%d preemptions; distinct = distinct (scenario, schedule); non-trivial = schedule with >=1 context switch between live threads", bound)
+	if v := os.Getenv("C02_BOUND"); v != "" { // sizing / debugging
+		fmt.Sscan(v, &bound)
+	}
+	rep.Rule = fmt.Sprintf("scenarios (quick: 9 of them; thorough: all) = 3-thread subsets of {R1:snapshot+Load x2, R2:snapshot+FindReaders/Get+iterate, W:flush commit of the same key, C:Family.Compact (background job incl. obsolete-file deletion), G:store periodic job (compaction trigger + reader-cache cleanup), D:obsolete-file deletion} plus {R1,R1,C},{R1,R1,G},{R1,R2,W,C},{R1,C,D},{R2,W,D} and {R1|R2, R1+G} (R1+G: a reader that runs the periodic job itself after closing its snapshot) on a family pre-loaded with two level-0 files sharing a key; every schedule with <=%d preemptions; distinct = distinct (scenario, schedule); non-trivial = schedule with >=1 context switch between live threads", bound)
 	rep.Bounds["preemption_bound"] = bound
 	rep.Bounds["scenarios"] = len(scenarios)
 	if os.Getenv("C02_TRACE") != "" {
